@@ -428,7 +428,77 @@ def encode(case):
     return msgpack.packb(msgpackable(shaped), use_bin_type=True), shaped
 
 
+REG_ROUTES = ["base", "api", "class:serpent", "class:json", "class:marshal", "class:msgpack", "instance:serpent", "instance:json", "instance:marshal", "instance:msgpack"]
+REG_CALLS = []
+
+
+def _route(name):
+    """the object through which the application reaches register_dict_to_class / unregister_dict_to_class"""
+    import Pyro5.api
+    from Pyro5 import serializers
+    if name == "base":
+        return serializers.SerializerBase
+    if name == "api":
+        return Pyro5.api
+    kind, ser = name.split(":")
+    inst = serializers.serializers[ser]
+    return type(inst) if kind == "class" else inst
+
+
+def registry_cases():
+    for reg in REG_ROUTES:
+        for unreg in REG_ROUTES:
+            for i, ser in enumerate(("serpent", "json", "marshal", "msgpack")):
+                yield {"part": "registry", "reg": reg, "unreg": unreg, "ser": ser, "path": ("loads", "call-args", "call-kwargs")[(i + len(reg) + len(unreg)) % 3]}
+
+
+def run_registry_case(case):
+    """'unless the application registered a converter for a tag itself': while registered (through whichever route) the converter is
+    what decodes the tag; once unregistered (through whichever route) the tag is outside the closed set again and nothing of the
+    application's runs"""
+    from Pyro5 import serializers
+    install_hook()
+    V = []
+
+    def viol(sig, what):
+        V.append(Violation("C04:" + sig, ("%s/%s converter registered via %s, unregistered via %s: %s" % (case["ser"], case["path"], case["reg"], case["unreg"], what))[:600]))
+    tag = "verif.c04.Registered"
+    ser = serializers.serializers[case["ser"]]
+
+    def converter(classname, d):
+        REG_CALLS.append(classname)
+        return ["converted", d.get("v")]
+    data, _shaped = encode({"ser": case["ser"], "path": case["path"], "tree": {"__class__": tag, "v": 5}})
+
+    def decode():
+        del REG_CALLS[:]
+        try:
+            return ("ok", ser.loads(data) if case["path"] == "loads" else ser.loadsCall(data))
+        except Exception as x:
+            return ("raised", x)
+    try:
+        _route(case["reg"]).register_dict_to_class(tag, converter)
+        r1 = decode()
+        if r1[0] != "ok" or REG_CALLS != [tag]:
+            viol("registry:registered-converter-not-used", "decoding gave %.120r, converter calls %r" % (r1, REG_CALLS))
+        _route(case["unreg"]).unregister_dict_to_class(tag)
+        r2 = decode()
+        if REG_CALLS:
+            viol("registry:converter-runs-after-unregistration", "the application's converter still ran (%r)" % (REG_CALLS,))
+        elif r2[0] == "ok":
+            viol("registry:tag-accepted-after-unregistration", "decoding succeeded with %.120r" % (r2[1],))
+    finally:
+        for r in REG_ROUTES:
+            try:
+                _route(r).unregister_dict_to_class(tag)
+            except Exception:
+                pass
+    return V
+
+
 def run_case(case):
+    if case.get("part") == "registry":
+        return run_registry_case(case)
     from Pyro5 import serializers
     install_hook()
     V = []
@@ -672,6 +742,9 @@ def SHARDS(tier):
 def run(ctx):
     install_hook()
     n = 0
+    if ctx.shard.get("index", 0) == 0:
+        for case in registry_cases():
+            ctx.observe(case, run_case(case), True, ["registry", "ser:" + case["ser"]])
     for case in sweep_cases(ctx.shard.get("index", 0), ctx.shard.get("count", 1)):
         ctx.observe(case, run_case(case), True, _labels(case) + ["sweep"])
         n += 1
